@@ -315,6 +315,6 @@ pub fn property() -> Property {
         assumptions: &["miniz_oxide produces valid raw deflate streams (self-checked by inflating with miniz at start-up)", "zero-length blocks and edge-geometry blocks are not generated; offsets of empty LOD sections are not constrained (sizes must be 0)"],
         pre: Some(pre),
         post: None,
-        parts: vec![Box::new(Part { name: "extract", driver: Driver::Gen(strategy, 60_000, 240_000), prop, exhaustive: false })],
+        parts: vec![Box::new(Part { name: "extract", driver: Driver::Gen(strategy, 60_000, 960_000), prop, exhaustive: false })],
     }
 }
